@@ -110,7 +110,7 @@ WRAPPERS = ['iso', 'swizzle2d', 'swizzle3d', 'slice', 'axisym', 'vector_axisym',
                  'mode': 'exact real arithmetic (the periodic kernel is re-checked in IEEE double mode by periodic_double)'},
          stubs=['wrapped functions: recording uninterpreted functions', 'raysect Function*/Vector3D/rotate_z/clamp: models',
                 'sqrt: root variable; atan2: r cos(phi) = x, r sin(phi) = y; fmod: exact real-mode definition'],
-         outside=['PolygonMask2D (delegates entirely to raysect triangulation/mesh)', 'floating-point rounding in this harness'])
+         outside=['floating-point rounding in this harness'])
 def wrappers(ex, uni, which):
     x, y, z = ex.real('x'), ex.real('y'), ex.real('z')
     mp = uni.load(M + 'mappers')
@@ -237,8 +237,14 @@ def wrappers(ex, uni, which):
         for cls, f, dim in cases:
             if dim == 1:
                 ex.assume(p[0] > 0, '1D periodic transform requires a positive period (constructor check)')
-            cls(f, *p[:dim])(*arg[:dim])
+            out = cls(f, *p[:dim])(*arg[:dim])
             inner = f.calls[-1]
+            ex.prove(len(f.calls) == 1, cls.__name__ + '-evaluates-the-wrapped-function-once')
+            if which == 'periodic':
+                ex.prove(ex.eq(out, ex.uf(f.name, *inner)), cls.__name__ + '==f(inner-argument)')
+            else:
+                ex.prove(ex.all([ex.eq(getattr(out, c), ex.uf(f.name + c, *inner)) for c in 'xyz']),
+                         cls.__name__ + '==F(inner-argument)')
             for k in range(dim):
                 per = p[k]
                 inside = ex.all([ex.le(0, inner[k]), ex.lt(inner[k], per)])
@@ -327,7 +333,8 @@ COUNTS_T = COUNTS_Q + [(4, 3, 2), (2, 4, 4), (1, 4, 1)]
          tiers={'quick': [{'nx': a, 'ny': b, 'nz': c} for a, b, c in COUNTS_Q], 'thorough': [{'nx': a, 'ny': b, 'nz': c} for a, b, c in COUNTS_T]},
          functions=[M + 'samplers.' + f for f in ('sample1d', 'sample1d_points', 'sample2d', 'sample2d_points', 'sample2d_grid',
                                                    'sample3d', 'sample3d_points', 'sample3d_grid', 'samplevector2d',
-                                                   'samplevector2d_grid', 'samplevector3d', 'samplevector3d_grid')],
+                                                   'samplevector2d_points', 'samplevector2d_grid', 'samplevector3d',
+                                                   'samplevector3d_points', 'samplevector3d_grid')],
          cover=['sampled'],
          bounds={'counts': 'samples per axis concrete per job (<=3 quick, <=4 thorough)', 'ranges': 'symbolic reals min<=max'},
          stubs=['numpy.linspace: model (min + i (max-min)/(n-1), end point exact)', 'sampled functions: recording uninterpreted functions'],
@@ -414,6 +421,20 @@ def samplers(ex, uni, nx, ny, nz):
         for j in range(ny):
             for k in range(nz):
                 ex.prove(ex.all([ex.eq(V[i, j, k, c], ex.uf('u' + 'xyz'[c], xs[i], ys[j], zs[k])) for c in range(3)]), 'samplevector3d_grid[i,j,k]==F(x_i,y_j,z_k)')
+    pts = np.array([[xs[i], ys[j]] for i in range(nx) for j in range(ny)], dtype=dt)
+    V = sm.samplevector2d_points(fv2, pts)
+    ex.prove(tuple(V.shape) == (len(pts), 3), 'samplevector2d_points-shape')
+    for q in range(len(pts)):
+        ex.prove(ex.all([ex.eq(V[q, c], ex.uf('v' + 'xyz'[c], pts[q][0], pts[q][1])) for c in range(3)]), 'samplevector2d_points[k]==F(p_k)')
+    pts = np.array([[xs[i], ys[j], zs[k]] for i in range(nx) for j in range(ny) for k in range(nz)], dtype=dt)
+    V = sm.samplevector3d_points(fv3, pts)
+    ex.prove(tuple(V.shape) == (len(pts), 3), 'samplevector3d_points-shape')
+    for q in range(len(pts)):
+        ex.prove(ex.all([ex.eq(V[q, c], ex.uf('u' + 'xyz'[c], pts[q][0], pts[q][1], pts[q][2])) for c in range(3)]), 'samplevector3d_points[k]==F(p_k)')
+    # every sampled function is evaluated exactly at the grid nodes, in index order (no extra / missing evaluations)
+    f2b = Rec2(ex, 'f2')
+    sm.sample2d(f2b, (lo[0], hi[0], nx), (lo[1], hi[1], ny))
+    ex.prove(len(f2b.calls) == nx * ny, 'sample2d-evaluates-once-per-node')
     # argument validation
     for bad in ((hi[0] + 1, hi[0], nx), (lo[0], hi[0], 0), (lo[0], hi[0])):
         try:
@@ -424,3 +445,95 @@ def samplers(ex, uni, nx, ny, nz):
         ex.prove(ok, 'sample1d-rejects-bad-range')
     ex.cover('sampled')
     ex.sample({'counts': [nx, ny, nz]})
+
+
+# ------------------------------------------------------------------------------------------- polygon mask
+class _Mesh2D(rs_model.Function2D):
+    """raysect Discrete2DMesh by contract: the value of the first triangle containing the point (edges included); outside every
+    triangle: ValueError when limit is set, default_value otherwise"""
+    made = []
+
+    def __init__(self, vertex_coords, triangles, triangle_data, limit=True, default_value=0.0):
+        self.v, self.t, self.d, self.limit, self.default = vertex_coords, triangles, triangle_data, limit, default_value
+        _Mesh2D.made.append(self)
+
+    def evaluate(self, x, y):
+        for k in range(len(self.t)):
+            a, b, c = (self.v[int(i)] for i in self.t[k])
+            if _in_triangle(x, y, a, b, c):
+                return self.d[k]
+        if self.limit:
+            raise ValueError('Requested value outside mesh bounds.')
+        return self.default
+
+
+def _cross(o, a, px, py):
+    return (a[0] - o[0]) * (py - o[1]) - (a[1] - o[1]) * (px - o[0])
+
+
+def _in_triangle(x, y, a, b, c):
+    d1, d2, d3 = _cross(a, b, x, y), _cross(b, c, x, y), _cross(c, a, x, y)
+    return bool(d1 >= 0) and bool(d2 >= 0) and bool(d3 >= 0) or (bool(d1 <= 0) and bool(d2 <= 0) and bool(d3 <= 0))
+
+
+def _fan(v):
+    n = len(v)
+    return np.array([[0, i, i + 1] for i in range(1, n - 1)], dtype=np.int32)
+
+
+def _mask_universe():
+    from symx.universe import Universe
+    return Universe(stubs={'triangulate2d': _fan, 'Discrete2DMesh': _Mesh2D})
+
+
+def _replay_mask(model, label, n=4, **kw):
+    """the counterexample on the compiled PolygonMask2D (public API) against an independent crossing-number test"""
+    from cherab.core.math import PolygonMask2D
+    g = lambda k: float(core.model_float(model[k])) if k in model else 0.0
+    vs = [(g('vx%d' % i), g('vy%d' % i)) for i in range(n)]
+    x, y = g('px'), g('py')
+    got = PolygonMask2D(vs)(x, y)
+    cr = [_cross(vs[i], vs[(i + 1) % n], x, y) for i in range(n)]
+    if min(abs(c) for c in cr) < 1e-9:
+        return {'reproduced': False, 'note': 'point on an edge (rounding decides)'}
+    inside = all(c > 0 for c in cr)
+    return {'reproduced': (got == 1.0) != inside, 'mask': got, 'inside': inside}
+
+
+@harness('C13', name='polygon_mask', universe=_mask_universe, replay_real=_replay_mask,
+         tiers={'quick': [{'n': 3}, {'n': 4}], 'thorough': [{'n': 3}, {'n': 4}, {'n': 5}, {'n': 6}]},
+         functions=[M + 'mask.PolygonMask2D.__init__', M + 'mask.PolygonMask2D.evaluate'], cover=['inside', 'outside'],
+         bounds={'polygon': 'strictly convex counter-clockwise n-gon, n concrete per job, vertex coordinates symbolic',
+                 'point': 'symbolic, not on the boundary'},
+         stubs=['raysect triangulate2d: fan triangulation (valid for convex polygons)',
+                'raysect Discrete2DMesh: contract (value of the triangle containing the point; outside: ValueError if limit else '
+                'default_value)'],
+         outside=['non-convex simple polygons (need raysect\'s ear-clipping triangulation)', 'points exactly on the boundary',
+                  'the compiled mesh search (kd-tree) itself'])
+def polygon_mask(ex, uni, n):
+    mk = uni.load(M + 'mask')
+    _Mesh2D.made = []
+    vs = [(ex.real('vx%d' % i), ex.real('vy%d' % i)) for i in range(n)]
+    for i in range(n):
+        a, b, c = vs[i], vs[(i + 1) % n], vs[(i + 2) % n]
+        ex.assume(_cross(a, b, c[0], c[1]) > 0, 'strictly convex, counter-clockwise')
+    if n > 3:
+        # convexity of a closed chain with all left turns still allows multiple windings for n >= 5: pin one winding by
+        # requiring every vertex to be left of every edge
+        for i in range(n):
+            for j in range(n):
+                if j not in (i, (i + 1) % n):
+                    ex.assume(_cross(vs[i], vs[(i + 1) % n], vs[j][0], vs[j][1]) > 0, 'every vertex left of every edge')
+    x, y = ex.real('px'), ex.real('py')
+    cr = [_cross(vs[i], vs[(i + 1) % n], x, y) for i in range(n)]
+    for c in cr:
+        ex.assume(ex.not_(ex.eq(c, 0)), 'not on the boundary')
+    m = mk.PolygonMask2D([[vx, vy] for vx, vy in vs])
+    got = m(x, y)
+    inside = ex.all([c > 0 for c in cr])
+    ex.cover('inside' if bool(inside) else 'outside')
+    ex.prove(ex.eq(got, ex.ite(inside, 1, 0)), 'PolygonMask2D==1-inside-the-polygon,0-outside')
+    ex.prove(len(_Mesh2D.made) == 1 and not _Mesh2D.made[0].limit, 'mask-never-raises-outside-the-polygon')
+    mv = _Mesh2D.made[0].v
+    ex.prove(ex.all([ex.all([ex.eq(mv[i][0], vs[i][0]), ex.eq(mv[i][1], vs[i][1])]) for i in range(n)]), 'mesh-built-on-the-given-vertices')
+    ex.sample({'n': n})
